@@ -22,12 +22,16 @@
 (*   variants "id" (identity blocks: reducible pattern) and "upper" (unit     *)
 (*   upper triangular blocks of ones).                                         *)
 (*                                                                         *)
-(* Model laws (must hold): LawInverse  blk * inv = I and both bounded;       *)
-(* LawDefault: TriBlock is unimodular in the sense that the inverse built     *)
-(* from its LDL^T factors is exact (checked as IsInverse with the explicit    *)
-(* inverse M[i][j] = sum_{k>=max(i,j)} (-1)^(i+j) ... via row reduction in    *)
-(* the harness-free form TriInv);  LawPermRoundTrip: permuting with the       *)
-(* inverse maps restores the block-diagonal matrix and ValidPerm accepts it.  *)
+(* Model laws (must hold, a failure is a design error):                      *)
+(*   LawInverse        the focus block and the inverse built side by side     *)
+(*                     satisfy blk * inv = inv * blk = I, entries <= Bound;    *)
+(*   LawDefault        the default blocks are unimodular: TriBlock * TriInv   *)
+(*                     = I and UpperBlock * (its bidiagonal inverse) = I;      *)
+(*   LawPermRoundTrip  permuting A back with the inverse maps restores the     *)
+(*                     block-diagonal matrix, ValidPerm accepts that           *)
+(*                     permutation, and the number of connected components is  *)
+(*                     invariant under the permutation (= number of blocks for *)
+(*                     irreducible blocks, = order for identity blocks).        *)
 (***************************************************************************)
 EXTENDS BlockDiag, TLC, Json
 
